@@ -248,7 +248,7 @@ namespace
       int nops = 1 + int(sim::cfg_weighted("fault_ops", {5, 2, 1}));
       for(int k = 0; k < nops; ++k)
       {
-        int kind = int(sim::cfg_weighted(("fault_kind" + std::to_string(k)).c_str(), {4, 2, 1, 1, 3, 3, 3, 2, 2, 2, 2, 3, 2}));
+        int kind = int(sim::cfg_weighted(("fault_kind" + std::to_string(k)).c_str(), {4, 2, 1, 1, 3, 3, 3, 2, 2, 2, 2, 3, 2, 3}));
         int bias = int(sim::cfg_int(("fault_bias" + std::to_string(k)).c_str(), 0, 1));
         switch(kind)
         {
@@ -265,6 +265,7 @@ namespace
         case 10: dim_change(bf, log); break;
         case 11: drop_element(bf, log); break;
         case 12: dup_element(bf, log); break;
+        case 13: attr_change(bf, log); break;
         }
       }
       size_t eof_limit = size_t(-1);
@@ -449,6 +450,41 @@ namespace
       log.ops += "DROP_ELEMENT(" + e.name + "@line" + std::to_string(e.open) + ") ";
       if(e.mandatory) { log.must_reject = true; log.why += "a mandatory <" + e.name + "> block with records is missing; "; }
       sim::count_fault("DROP_ELEMENT");
+    }
+
+    // damage one attribute of one markup line: drop it, duplicate it, or replace its value by a short legal-looking or
+    // illegal token. Robustness only (no must-reject claim: whether the attribute is mandatory is the parser's business);
+    // whatever is accepted must still be valid and re-writable.
+    static void attr_change(Bytes& b, simfs::FaultLog& log)
+    {
+      std::string s(b.begin(), b.end());
+      struct At { size_t beg, vbeg, vend; };    // [beg, vend+1): name="value"
+      std::vector<At> ats;
+      for(size_t p = s.find('<'); p != std::string::npos; p = s.find('<', p + 1))
+      {
+        if(p + 1 >= s.size() || !isalpha((unsigned char)s[p + 1])) continue;
+        size_t e = s.find('>', p), nl = s.find('\n', p);
+        if(e == std::string::npos || (nl != std::string::npos && nl < e)) continue;
+        for(size_t q = s.find("=\"", p); q != std::string::npos && q < e; q = s.find("=\"", q + 1))
+        {
+          size_t nb = q; while(nb > p && (isalnum((unsigned char)s[nb - 1]) || s[nb - 1] == '_')) --nb;
+          size_t ve = s.find('"', q + 2);
+          if(ve == std::string::npos || ve > e || nb == q) break;
+          ats.push_back({nb, q + 2, ve});
+          q = ve;
+        }
+      }
+      if(ats.empty()) return;
+      const At a = ats[simfs::pick(ats.size(), "attr")];
+      static const char* vals[12] = {"", "0", "1", "2", "7", "abc", "-1", "1 1", "0 0 0 0 0 0 0", "1.5", "x:y:z:w", " "};
+      const size_t op = simfs::pick(14, "attr_op");
+      const std::string name = s.substr(a.beg, a.vbeg - 2 - a.beg);
+      if(op == 12) s.erase(a.beg, a.vend + 1 - a.beg);
+      else if(op == 13) s.insert(a.vend + 1, " " + s.substr(a.beg, a.vend + 1 - a.beg));
+      else s.replace(a.vbeg, a.vend - a.vbeg, vals[op]);
+      b.assign(s.begin(), s.end());
+      log.ops += "ATTR_CHANGE(" + name + (op == 12 ? ",dropped" : op == 13 ? ",doubled" : std::string(",'") + vals[op] + "'") + ") ";
+      sim::count_fault("ATTR_CHANGE");
     }
 
     // write one whole child element twice (a replayed extent)
